@@ -124,6 +124,28 @@ def run_c17(ctx, C):
                  mcs=[MC_SK, mc_sk_knob("ResetBeforeMac"), mc_sk_knob("ResetPerPrfBlock")], traces=())
 
 
+GEN_KEYS = dict(module="Gen_Keys", name="keys", trace=False)
+MC_SALIFE = dict(module="SALife", name="salife", constants=dict(MaxChildren=3, FailPoints="{0, 1, 2}"),
+                 invariants=("Agreement", "NoKeyOnRandFailure", "ChildIsFunction", "KeysOnlyWhenDone"),
+                 what="two-party key establishment with a random source that may fail at any read")
+
+
+def run_c07(ctx, C):
+    codec_common(ctx, C, [GEN_KEYS], [], mcs=[MC_SALIFE], traces=())
+
+
+GEN_CHILD = dict(module="Gen_Child", name="child", constants=dict(N=lambda ctx: 120 if ctx.thorough else 48), trace=False)
+GEN_DH = dict(module="Gen_DH", name="dh", trace=False, replay_workers=16)
+
+
+def run_c08(ctx, C):
+    codec_common(ctx, C, [GEN_CHILD, GEN_KEYS, GEN_HIST], [], mcs=[MC_SALIFE, MC_SK, mc_sk_knob("ResetPerPrfBlock")], traces=())
+
+
+def run_c09(ctx, C):
+    codec_common(ctx, C, [GEN_DH, GEN_KEYS], [], mcs=[MC_SALIFE], traces=())
+
+
 def run_c06(ctx, C):
     codec_common(ctx, C, [GEN_SK], [], mcs=[MC_SK], traces=("Trace_SK",))
 
@@ -133,6 +155,24 @@ def run_c04(ctx, C):
 
 
 PLANS = {
+    "C08": dict(level="model_checking", run=run_c08, assumptions=ASSUME_SK,
+                rule="ChildIsFunction model-checked in SALife.tla and AsFresh (with the PRF object's hidden state) in SKChannel.tla, sanity run with "
+                     "Reset-per-block removed; TLC prints, for each PRF, derivation sequences on ONE long-lived IKE SA object cycling through all 12 "
+                     "(encryption size x {none, MD5, SHA1, SHA2-256}) combinations and nonce lengths {0,1,32,40,64,300}; the k-th result (k up to 48 / "
+                     "120) must equal the RFC 7296 2.17 terms ei, ai, er, ar of prf+(SK_d, Ni|Nr); also derivations inside two-party and history vectors"),
+    "C09": dict(level="fault_enumeration", run=run_c09, assumptions=ASSUME_SK + ["the primes of the specification are derived from the RFC formula by bin/gen_dhgroups.py",
+                "crypto/rand.Reader is interposed (Go toolchain of this image honours the replaceable global)"],
+                rule="13 exponent classes (0, 1, 2, p-1, p, p+1, 2^128, 2^2048-1, n (exposes every digit of the prime), random, short, two exponents "
+                     "found with a leading-zero public value) x 9 peer classes (0, 1, p-1, p, p+1, 2^2056-1, 2, random, leading zeros) x 2 groups: public "
+                     "value and shared secret equal LPad(ModExp) with the spec's primes, pairwise agreement through the code; GenerateRandomNumber: range "
+                     "and distinctness over N draws, replay determinism, too-small draws skipped; failing source at read 0..8 for GenerateRandomNumber, "
+                     "CalculateDiffieHellmanMaterials and NewIKESAKey: error and no key whenever the failure was delivered"),
+    "C07": dict(level="model_checking", run=run_c07, assumptions=ASSUME_SK + ["2048-bit modular exponentiation is evaluated with math/big using the prime derived from the RFC formula"],
+                rule="SALife.tla (two-party establishment, symbolic DH and key schedule) model-checked for Agreement; TLC enumerates 27 suites x 2 "
+                     "groups x nonce lengths {1,4,16,32,64,512} x secret lengths {1,128,256,512} x SPI pools x algorithm infos by name / through "
+                     "the SA's own proposal, and prints the seven keys as RFC 7296 2.13-2.14 terms (prf+ blocks as named HMAC terms) plus probe terms "
+                     "for all seven ready-to-use objects; two-party behaviours (GetPublicValue, NewIKESAKey with a wire-decoded proposal, GetSharedKey, "
+                     "GenerateKeyForIKESA) end in protected traffic both ways across the two objects and Child SA derivations on both ends"),
     "C17": dict(level="model_checking", run=run_c17, assumptions=ASSUME_SK,
                 rule="SKChannel.tla makes the hidden state of the MAC / PRF objects explicit (what was written since the last Reset); AsFresh is "
                      "model-checked over all operation sequences and fails when Reset-before-MAC or Reset-per-prf-block is removed (sanity runs); "
